@@ -4,7 +4,10 @@ import (
 	"verifharness/fw"
 
 	_ "verifharness/checks/c04"
+	_ "verifharness/checks/c05"
 	_ "verifharness/checks/c08"
+	_ "verifharness/checks/c20"
+	_ "verifharness/checks/c21"
 	_ "verifharness/roles"
 )
 
